@@ -10,6 +10,7 @@ import (
 	"bufio"
 	"fmt"
 	"math/rand"
+	"sort"
 	"strconv"
 	"strings"
 	"testing/synctest"
@@ -207,10 +208,10 @@ func genNetCase(w *bufio.Writer, rng *rand.Rand, k int, budget int) []string {
 	advert := func(n int) string {
 		var es []string
 		for d := 0; d < nR; d++ {
-			if rng.Intn(3) == 0 {
+			if rng.Intn(4) == 0 {
 				continue
 			}
-			cost := []int{0, 1, 1, 2, 2, 3, 5, 14, 15, 16}[rng.Intn(10)]
+			cost := []int{0, 1, 1, 1, 2, 2, 2, 3, 3, 5, 14, 15, 16}[rng.Intn(13)]
 			if d == n {
 				cost = 0
 			}
@@ -223,39 +224,74 @@ func genNetCase(w *bufio.Writer, rng *rand.Rand, k int, budget int) []string {
 		}
 		return strings.Join(es, ",")
 	}
+	have := map[int]map[int]bool{}
+	pendingAdv := map[int]bool{}
+	doSync := func(n int, forceNew bool) {
+		face, ok := faceOf[n]
+		if !ok || rng.Intn(5) == 0 { // first contact or face change
+			face = faces[rng.Intn(len(faces))]
+			faceOf[n] = face
+		}
+		kind := "new"
+		if !forceNew && rng.Intn(3) == 0 {
+			kind = "same"
+		}
+		if kind == "new" || !ok {
+			pendingAdv[n] = true
+		}
+		do(fmt.Sprintf("sync %d %d %d %s", n, face, rng.Intn(2), kind))
+	}
 	for i := 0; i < budget; i++ {
 		r := rng.Intn(100)
 		switch {
-		case r < 22:
+		case r < 18:
 			n := pickNbr()
-			face, ok := faceOf[n]
-			if !ok || rng.Intn(5) == 0 { // first contact or face change
-				face = faces[rng.Intn(len(faces))]
-				faceOf[n] = face
+			doSync(n, false)
+			if pendingAdv[n] && rng.Intn(10) < 7 {
+				do(fmt.Sprintf("adv %d %s", n, advert(n)))
+				delete(pendingAdv, n)
 			}
-			kind := "new"
-			if rng.Intn(3) == 0 {
-				kind = "same"
+		case r < 36:
+			n := pickNbr()
+			if !pendingAdv[n] {
+				doSync(n, true)
 			}
-			do(fmt.Sprintf("sync %d %d %d %s", n, face, rng.Intn(2), kind))
-		case r < 44:
-			do(fmt.Sprintf("adv %d %s", pickNbr(), advert(0)))
-		case r < 46:
+			do(fmt.Sprintf("adv %d %s", n, advert(n)))
+			delete(pendingAdv, n)
+		case r < 38:
 			do(fmt.Sprintf("advtmo %d", pickNbr()))
-		case r < 52:
+		case r < 44:
 			do(fmt.Sprintf("sleep %d", []int{1000, 9000, 16000, 31000}[rng.Intn(4)]))
-		case r < 58:
+		case r < 50:
 			do("deadcheck")
-		case r < 72:
+		case r < 80: // a remote router changes what it announces; usually we hear about it and fetch
 			router := 1 + rng.Intn(nR-1)
-			if rng.Intn(4) == 0 {
-				do(fmt.Sprintf("pw %d %d", router, rng.Intn(len(c.pfxs))))
-			} else {
-				do(fmt.Sprintf("pa %d %d", router, rng.Intn(len(c.pfxs))))
+			if have[router] == nil {
+				have[router] = map[int]bool{}
 			}
-		case r < 82:
+			var cur []int
+			for x := range have[router] {
+				cur = append(cur, x)
+			}
+			sort.Ints(cur)
+			if len(cur) > 0 && rng.Intn(5) < 2 {
+				x := cur[rng.Intn(len(cur))]
+				delete(have[router], x)
+				do(fmt.Sprintf("pw %d %d", router, x))
+			} else {
+				x := rng.Intn(len(c.pfxs))
+				have[router][x] = true
+				do(fmt.Sprintf("pa %d %d", router, x))
+			}
+			if rng.Intn(5) != 0 {
+				do(fmt.Sprintf("psync %d", router))
+				if rng.Intn(6) != 0 {
+					do(fmt.Sprintf("pfetch %d all", router))
+				}
+			}
+		case r < 86:
 			do(fmt.Sprintf("psync %d", 1+rng.Intn(nR-1)))
-		case r < 96:
+		case r < 97:
 			if rng.Intn(2) == 0 {
 				do(fmt.Sprintf("pfetch %d all", 1+rng.Intn(nR-1)))
 			} else {
